@@ -6,6 +6,7 @@ import (
 	"path"
 	"strconv"
 	"strings"
+	"time"
 )
 
 func init() {
@@ -286,8 +287,62 @@ func queryParam(q, key string) (val string, present, ambiguous bool) {
 // oracleC05 compares every grammar request with the reference of routing and check precedence.
 func oracleC05(f *sessionFam, w *World, res *Result) []Violation {
 	l := &vlist{prop: "C05"}
+	// whole-session scenarios: a request of a conformant client that names its own session on the session's own
+	// transport is admitted as long as that session has not closed - 'closing' (a graceful close waiting for the next
+	// poll) is not closed: that poll is the one that carries the close packet
+	for ci := range f.sc.Clients {
+		sp := &f.sc.Clients[ci]
+		sid := w.SockIDs[sp.Name]
+		if len(sp.Raw) > 0 || sid == "" || len(w.evs(sp.Name, "close-before-attach")) > 0 {
+			continue
+		}
+		connSeq, closeSeq := 0, 0
+		var closeT time.Duration
+		for _, e := range w.evs(sp.Name, "connection") {
+			connSeq = e.Seq
+		}
+		for _, e := range w.evs(sp.Name, "close") {
+			if closeSeq == 0 {
+				closeSeq, closeT = e.Seq, e.T
+			}
+		}
+		for _, r := range w.resps {
+			if r.Client != sp.Name || r.Status != 400 || !r.Returned || !strings.Contains(r.URL, "sid="+sid) || !strings.Contains(r.URL, "transport=polling") {
+				continue
+			}
+			var body struct {
+				Code *int `json:"code"`
+			}
+			if json.Unmarshal(r.Body, &body) != nil || body.Code == nil || *body.Code != 1 {
+				continue
+			}
+			reqSeq := 0
+			for _, e := range w.evs(sp.Name, "http-req") {
+				if e.N == int64(r.ID) {
+					reqSeq = e.Seq
+				}
+			}
+			if connSeq == 0 || reqSeq < connSeq {
+				continue
+			}
+			// (a request processed in the very instant the session closes races with the close: the session leaves the
+			// table a few statements before the application hears of it)
+			if closeSeq == 0 || closeT > r.T1 {
+				st := "open"
+				for _, e := range w.Evs {
+					if e.Seq > reqSeq {
+						break
+					}
+					if e.Sess == sp.Name && e.St != "" {
+						st = readyOf(e.St)
+					}
+				}
+				l.add("known-session-admitted", st, fmt.Sprintf("%s: %s %s was refused with 'Session ID unknown' although the session had not closed (state %s; close event: %v)", sp.Name, r.Method, clip(r.URL, 70), st, closeSeq != 0))
+			}
+		}
+	}
 	if f.sc.Attach == nil {
-		return nil
+		return l.out
 	}
 	mount := refMountPath(f.sc.Attach)
 	o := f.sc.Opts
